@@ -1,0 +1,72 @@
+//go:build verif
+
+package rpc
+
+import (
+	"context"
+
+	"github.com/logrange/logrange/api"
+	"github.com/logrange/logrange/pkg/partition"
+	"github.com/logrange/range/pkg/utils/bytes"
+	"github.com/logrange/range/pkg/utils/encoding/xbinary"
+)
+
+// Exports for the verification harness (/verif, property C01). Pure additions, compiled only with -tags verif.
+
+// VerifC01Event is one event as the server-side write-packet iterator hands it to the partition.
+type VerifC01Event struct {
+	Ts     int64
+	Msg    string
+	Fields string // binary field.Fields
+}
+
+// VerifC01EncodeWritePacket runs the client's encoder (writePacket.WritableSize + WriteTo) and returns the request body.
+func VerifC01EncodeWritePacket(tags, fields string, evs []*api.LogEvent) []byte {
+	wp := &writePacket{tags, fields, evs}
+	var w bytes.Writer
+	w.Init(wp.WritableSize(), nil)
+	ow := &xbinary.ObjectsWriter{Writer: &w}
+	wp.WriteTo(ow)
+	return append([]byte{}, w.Buf()...)
+}
+
+// VerifC01DecodeWritePacket runs the server's decoder the way a records consumer does: init, then Get/Next until
+// Get fails. res is "ok", "err" (init refused the packet) or "panic".
+func VerifC01DecodeWritePacket(buf []byte) (tags string, evs []VerifC01Event, res string) {
+	defer func() {
+		if r := recover(); r != nil {
+			res = "panic"
+			evs = nil
+		}
+	}()
+	var wpi wpIterator
+	if err := wpi.init(buf); err != nil {
+		return "", nil, "err"
+	}
+	ctx := context.Background()
+	for i := 0; i < 1<<24; i++ {
+		le, _, err := wpi.Get(ctx)
+		if err != nil {
+			break
+		}
+		// second Get without Next must return the same event (the iterator caches it)
+		le2, _, err2 := wpi.Get(ctx)
+		if err2 != nil || le2.Timestamp != le.Timestamp || string(le2.Msg) != string(le.Msg) || le2.Fields != le.Fields {
+			return wpi.tags, evs, "get-not-idempotent"
+		}
+		evs = append(evs, VerifC01Event{le.Timestamp, string(append([]byte{}, le.Msg...)), string(append([]byte{}, le.Fields...))})
+		wpi.Next(ctx)
+	}
+	return wpi.tags, evs, "ok"
+}
+
+// VerifC01ServeWritePacket does what ServerIngestor.write does with a request body, minus the transport: the
+// returned error is the one the client would receive (nil = the write is acknowledged).
+func VerifC01ServeWritePacket(ctx context.Context, ps *partition.Service, reqBody []byte) error {
+	var wpi wpIterator
+	err := wpi.init(reqBody)
+	if err == nil {
+		err = ps.Write(ctx, wpi.tags, &wpi, false)
+	}
+	return err
+}
